@@ -468,7 +468,9 @@ static void mps_err (
 		ILL_FAILfalse (state->p >= state->line, "state->p >= state->line");
 		at = state->p - state->line;
 	}
-	vsprintf (error_desc, format, args);
+	/* names from the file end up in the message: never write past the buffer
+	 * (two bytes stay free for the newline appended below) */
+	vsnprintf (error_desc, sizeof (error_desc) - 2, format, args);
 	slen = strlen (error_desc);
 	if ((slen > 0) && error_desc[slen - 1] != '\n')
 	{
